@@ -28,11 +28,13 @@ theorem C37_source_shape :
     Gen.CliConfig.keylessProfileName = "default" ∧ Gen.CliConfig.createTokenSelects = true := by
   decide
 
-/-- **C37.** After any sequence of configuration operations the current environment is a known
-environment or the built-in default, and the active profile
+/-- **C37 (strong form).** After any sequence of configuration operations the current environment is
+a known environment or the built-in default, and the active profile
 (`current_auth_service().get_current_profile()`) is none or a stored profile of the current
-environment whose name is the latest select/create event, and that event happened while this
-environment was current. -/
+environment whose name is the *latest* select/create event of the history, and that event happened
+while this environment was current.  The property's wording ("a profile of the current environment
+that was selected or created while that environment was current") follows:
+`C37_active_was_picked_here`. -/
 theorem C37_invariant (ops : List Op) : Holds srcCfg (run srcCfg (init srcCfg) ops) := by
   have hinv := inv_run C37_source_shape.1 ops _ (inv_init C37_source_shape.1)
   refine ⟨hinv.envKnown, ?_⟩
@@ -70,6 +72,27 @@ theorem C37_pick_is_last_pick_event (c : Cfg) (ops : List Op) (s : State) :
 example : lastPickFrom srcCfg (init srcCfg) none
     [.createToken "p1" none, .envAdd "http://b" false none, .select "x", .envSwitch "http://nowhere"]
     = some ("x", "http://b") := by decide
+
+/-- **C37, in the words of the property.**  If a profile is active after a history, it is a stored
+profile of the current environment, and the history contains an operation that selected or created
+exactly that name while the now-current environment was current — and (by `C37_invariant`) that
+operation is the *latest* select/create event of the whole history, so the selection cannot stem
+from another environment. -/
+theorem C37_active_was_picked_here (ops : List Op) (p : Profile)
+    (h : active (run srcCfg (init srcCfg) ops) = some p) :
+    p ∈ (run srcCfg (init srcCfg) ops).profiles ∧ p.env = (run srcCfg (init srcCfg) ops).curEnv ∧
+    ∃ pre op post, ops = pre ++ op :: post ∧
+      picks srcCfg (run srcCfg (init srcCfg) pre) op = some p.name ∧
+      (run srcCfg (init srcCfg) pre).curEnv = (run srcCfg (init srcCfg) ops).curEnv := by
+  obtain ⟨hmem, henv, hpick⟩ := (C37_invariant ops).2 p h
+  refine ⟨hmem, henv, ?_⟩
+  rw [C37_pick_is_last_pick_event] at hpick
+  rcases lastPickFrom_event srcCfg ops _ _ _ _ hpick with h0 | hex
+  · simp [init] at h0
+  · exact hex
+
+example : picks srcCfg (run srcCfg (init srcCfg) [.createToken "p1" none, .envAdd "http://b" false none])
+    (.createToken "p2" (some "sk-aaaaaa1111zzzz")) = some "sk-aaa****zzzz" := by decide
 
 /-- Profiles stay keyed by `(name, environment)`: "the" profile of a name in an environment is unique. -/
 theorem C37_unique_keys (ops : List Op) :
